@@ -172,7 +172,7 @@ def dumpNames (s : Schema) : List String :=
 def dumpAll (s : Schema) : String :=
   let d := dictOf s (s.entities.map (·.name))
   let rulesOfE (n : String) : List String := match s.findE n with
-    | some e => (entityInits e).map (fun (n, t) => s!" DI {n} {toHex t}") ++ dumpRules "UR" (entityRules e).uniques ++ dumpRules "WR" (entityRules e).wheres
+    | some e => (match supertypeStmt e with | some t => [s!" SS - {toHex t}"] | none => []) ++ (entityInits e).map (fun (n, t) => s!" DI {n} {toHex t}") ++ dumpRules "UR" (entityRules e).uniques ++ dumpRules "WR" (entityRules e).wheres
     | none => []
   let rulesOfT (n : String) : List String := match s.findT n with
     | some t => dumpRules "TWR" (typeRules t).wheres
@@ -219,6 +219,10 @@ def handle (s : Schema) (line : String) : Option Schema :=
       match e.attrs.reverse with
       | a :: as => some { s with entities := ({ e with attrs := ({ a with init := t } :: as).reverse } :: rest).reverse }
       | [] => none
+    | _, _ => none
+  | ["esuper", hx] =>
+    match fromHex hx, s.entities.reverse with
+    | some t, e :: rest => some { s with entities := ({ e with superExpr := some t } :: rest).reverse }
     | _, _ => none
   | ["twhere", lab, hx] =>
     match fromHex hx, s.types.reverse with
